@@ -1,5 +1,9 @@
-(* Model of pkg/ha/failover.go (FailoverController) driven by pkg/ha/health_monitor.go
-   (HealthMonitor with FailureThreshold = RecoveryThreshold = 1).
+(* Model of pkg/ha/failover.go (FailoverController) composed with pkg/ha/health_monitor.go
+   (HealthMonitor.recordFailure / recordSuccess: the consecutive-failure / consecutive-success counters,
+   FailureThreshold / RecoveryThreshold, the Healthy flag and the partner_down / partner_up /
+   check_failed / check_succeeded notifications).  [Down] / [Up] are ONE failed / successful health
+   check; the monitor turns the check history into partner-down / partner-up reports, which are what
+   the controller's handleHealthEvent sees.
 
    Time is a model clock moved by [Advance].  The two time.AfterFunc timers are explicit: the
    controller's current timer is [Some deadline]; the Go runtime's part is made of events:
@@ -36,7 +40,8 @@ Definition kind_eqb (a b : kind) : bool :=
 
 (* FailoverConfig (Enabled = true; GracePeriod has no effect on the state machine: it is the time the
    harness lets pass between an execution's start and its callback's return) + the configured role *)
-Record config := { c_delay : N; c_fbdelay : N; c_fb_enabled : bool; c_orig : role }.
+Record config := { c_delay : N; c_fbdelay : N; c_fb_enabled : bool; c_orig : role;
+                   c_fthr : N; c_rthr : N   (* HealthConfig.FailureThreshold / RecoveryThreshold *) }.
 
 (* one execution blocked in the role-change callback: kind, oldRole captured under the lock *)
 Record exec := { x_kind : kind; x_old : role }.
@@ -45,6 +50,7 @@ Record state := mkS {
   role_ : role;                 (* currentRole *)
   st : fstate;                  (* state *)
   healthy : bool;               (* HealthMonitor.health.Healthy *)
+  h_cf : N; h_cs : N;           (* health.ConsecutiveFailures / ConsecutiveSuccesses *)
   now : N;
   fo : option N;                (* failoverTimer pending, with its deadline *)
   fb : option N;                (* failbackTimer pending *)
@@ -55,7 +61,7 @@ Record state := mkS {
 }.
 
 Definition init (c : config) : state :=
-  mkS (c_orig c) Normal true 0 None None 0 0 [] 0 0 0 0 0.
+  mkS (c_orig c) Normal true 0 0 0 None None 0 0 [] 0 0 0 0 0.
 
 (* events handed to the OnFailoverEvent handlers: type, OldRole, NewRole *)
 Inductive evtype := EInitiated | ECompleted | ECanceled | EFbInitiated | EFbCompleted | ERoleChanged.
@@ -80,6 +86,9 @@ Record out := mkOut {
   o_fo : bool; o_fb : bool;       (* timer pending *)
   o_foz : N; o_fbz : N;
   o_healthy : bool;
+  o_hc : N * N;                   (* Health().ConsecutiveFailures / ConsecutiveSuccesses *)
+  o_hev : N;                      (* health event handed to the OnHealthChange handlers:
+                                     0 none, 1 partner_down, 2 partner_up, 3 check_failed, 4 check_succeeded *)
   o_cb : option role;             (* the role-change callback was entered with this newRole *)
   o_res : res
 }.
@@ -89,13 +98,13 @@ Definition stop (nw : N) (t : option N) (z : N) : N :=
   match t with Some d => if d <=? nw then z + 1 else z | None => z end.
 
 Definition set_st (s : state) (v : fstate) : state :=
-  mkS (role_ s) v (healthy s) (now s) (fo s) (fb s) (fo_z s) (fb_z s) (inflight s)
+  mkS (role_ s) v (healthy s) (h_cf s) (h_cs s) (now s) (fo s) (fb s) (fo_z s) (fb_z s) (inflight s)
       (n_init s) (n_comp s) (n_canc s) (n_fb s) (since s).
 
 (* handleHealthEvent(PartnerDown) *)
 Definition deliver_down (c : config) (s : state) : state :=
   if role_eqb (role_ s) Standby && fstate_eqb (st s) Normal then
-    mkS (role_ s) Pending (healthy s) (now s) (Some (now s + c_delay c)) (fb s)
+    mkS (role_ s) Pending (healthy s) (h_cf s) (h_cs s) (now s) (Some (now s + c_delay c)) (fb s)
         (stop (now s) (fo s) (fo_z s)) (fb_z s) (inflight s)
         (n_init s) (n_comp s) (n_canc s) (n_fb s) (since s)
   else s.
@@ -103,12 +112,12 @@ Definition deliver_down (c : config) (s : state) : state :=
 (* handleHealthEvent(PartnerUp) *)
 Definition deliver_up (c : config) (s : state) : state * list fevent :=
   if fstate_eqb (st s) Pending then
-    (mkS (role_ s) Normal (healthy s) (now s) None (fb s)
+    (mkS (role_ s) Normal (healthy s) (h_cf s) (h_cs s) (now s) None (fb s)
          (stop (now s) (fo s) (fo_z s)) (fb_z s) (inflight s)
          (n_init s) (n_comp s) (n_canc s + 1) (n_fb s) (since s),
      [(ECanceled, role_ s, role_ s)])
   else if fstate_eqb (st s) Complete && c_fb_enabled c then
-    (mkS (role_ s) FailbackPending (healthy s) (now s) (fo s) (Some (now s + c_fbdelay c))
+    (mkS (role_ s) FailbackPending (healthy s) (h_cf s) (h_cs s) (now s) (fo s) (Some (now s + c_fbdelay c))
          (fo_z s) (stop (now s) (fb s) (fb_z s)) (inflight s)
          (n_init s) (n_comp s) (n_canc s) (n_fb s) (since s), [])
   else (s, []).
@@ -117,7 +126,7 @@ Definition deliver_up (c : config) (s : state) : state * list fevent :=
 Definition fo_start (stale : bool) (s : state) : state * option role * list N :=
   match st s with
   | Pending | InProgress =>
-      (mkS (role_ s) InProgress (healthy s) (now s) (fo s) (fb s) (fo_z s) (fb_z s)
+      (mkS (role_ s) InProgress (healthy s) (h_cf s) (h_cs s) (now s) (fo s) (fb s) (fo_z s) (fb_z s)
            (inflight s ++ [{| x_kind := FO; x_old := role_ s |}])
            (n_init s + 1) (n_comp s) (n_canc s) (n_fb s) (since s),
        Some Active,
@@ -130,7 +139,7 @@ Definition fb_start (c : config) (stale : bool) (s : state) : state * option rol
   match st s with
   | FailbackPending =>
       if healthy s then
-        (mkS (role_ s) (st s) (healthy s) (now s) (fo s) (fb s) (fo_z s) (fb_z s)
+        (mkS (role_ s) (st s) (healthy s) (h_cf s) (h_cs s) (now s) (fo s) (fb s) (fo_z s) (fb_z s)
              (inflight s ++ [{| x_kind := FB; x_old := role_ s |}])
              (n_init s) (n_comp s) (n_canc s) (n_fb s) (since s),
          Some (c_orig c),
@@ -140,10 +149,10 @@ Definition fb_start (c : config) (stale : bool) (s : state) : state * option rol
   end.
 
 Definition set_fo (s : state) (t : option N) (z : N) : state :=
-  mkS (role_ s) (st s) (healthy s) (now s) t (fb s) z (fb_z s) (inflight s)
+  mkS (role_ s) (st s) (healthy s) (h_cf s) (h_cs s) (now s) t (fb s) z (fb_z s) (inflight s)
       (n_init s) (n_comp s) (n_canc s) (n_fb s) (since s).
 Definition set_fb (s : state) (t : option N) (z : N) : state :=
-  mkS (role_ s) (st s) (healthy s) (now s) (fo s) t (fo_z s) z (inflight s)
+  mkS (role_ s) (st s) (healthy s) (h_cf s) (h_cs s) (now s) (fo s) t (fo_z s) z (inflight s)
       (n_init s) (n_comp s) (n_canc s) (n_fb s) (since s).
 
 Fixpoint remove_nth {A} (i : nat) (l : list A) : list A :=
@@ -159,48 +168,71 @@ Definition finish (c : config) (x : exec) (ok : bool) (s : state) (rest : list e
   match x_kind x with
   | FO =>
       if ok then
-        (mkS Active Complete (healthy s) (now s) (fo s) (fb s) (fo_z s) (fb_z s) rest
+        (mkS Active Complete (healthy s) (h_cf s) (h_cs s) (now s) (fo s) (fb s) (fo_z s) (fb_z s) rest
              (n_init s) (n_comp s + 1) (n_canc s) (n_fb s) (since s),
          [(ECompleted, x_old x, Active); (ERoleChanged, x_old x, Active)], [])
       else
-        (mkS (role_ s) Normal (healthy s) (now s) (fo s) (fb s) (fo_z s) (fb_z s) rest
+        (mkS (role_ s) Normal (healthy s) (h_cf s) (h_cs s) (now s) (fo s) (fb s) (fo_z s) (fb_z s) rest
              (n_init s) (n_comp s) (n_canc s) (n_fb s) (since s), [], [])
   | FB =>
       if ok then
-        (mkS (c_orig c) Normal (healthy s) (now s) (fo s) (fb s) (fo_z s) (fb_z s) rest
+        (mkS (c_orig c) Normal (healthy s) (h_cf s) (h_cs s) (now s) (fo s) (fb s) (fo_z s) (fb_z s) rest
              (n_init s) (n_comp s) (n_canc s) (n_fb s + 1) (since s),
          [(EFbCompleted, x_old x, c_orig c); (ERoleChanged, x_old x, c_orig c)],
          if healthy s then [] else [1404])
       else
-        (mkS (role_ s) Complete (healthy s) (now s) (fo s) (fb s) (fo_z s) (fb_z s) rest
+        (mkS (role_ s) Complete (healthy s) (h_cf s) (h_cs s) (now s) (fo s) (fb s) (fo_z s) (fb_z s) rest
              (n_init s) (n_comp s) (n_canc s) (n_fb s) (since s), [], [])
   end.
 
 Definition is_some {A} (o : option A) : bool := match o with Some _ => true | None => false end.
 
-Definition observe (s : state) (evs : list fevent) (cb : option role) (r : res) : out :=
+Definition observe (s : state) (evs : list fevent) (hev : N) (cb : option role) (r : res) : out :=
   mkOut (role_ s) (st s) (n_init s, n_comp s, n_canc s, n_fb s) evs
-        (is_some (fo s)) (is_some (fb s)) (fo_z s) (fb_z s) (healthy s) cb r.
+        (is_some (fo s)) (is_some (fb s)) (fo_z s) (fb_z s) (healthy s) (h_cf s, h_cs s) hev cb r.
+
+(* recordFailure: wasHealthy && ConsecutiveFailures (after the increment) >= FailureThreshold *)
+Definition goes_down (c : config) (s : state) : bool :=
+  if healthy s then c_fthr c <=? h_cf s + 1 else false.
+(* recordSuccess: wasUnhealthy && ConsecutiveSuccesses (after the increment) >= RecoveryThreshold *)
+Definition goes_up (c : config) (s : state) : bool :=
+  if healthy s then false else c_rthr c <=? h_cs s + 1.
+
+(* the notification the monitor hands to its handlers for this check *)
+Definition health_ev (c : config) (s : state) (e : ev) : N :=
+  match e with
+  | Down => if goes_down c s then 1 else 3
+  | Up => if goes_up c s then 2 else 4
+  | _ => 0
+  end.
 
 (* state after the event, handler events, callback entry, result, markers *)
 Definition step_core (c : config) (s : state) (e : ev)
   : state * list fevent * option role * res * list N :=
   match e with
   | Down =>
-      (* recordFailure: a transition (and a PartnerDown event) only when the partner was healthy *)
-      if healthy s then
-        let s1 := mkS (role_ s) (st s) false (now s) (fo s) (fb s) (fo_z s) (fb_z s) (inflight s)
+      (* recordFailure: ConsecutiveFailures++, ConsecutiveSuccesses = 0; a transition (and a
+         partner_down event to the controller) only when the partner was healthy and the failure
+         streak reached FailureThreshold; otherwise a check_failed event the controller ignores *)
+      if goes_down c s then
+        let s1 := mkS (role_ s) (st s) false (h_cf s + 1) 0 (now s) (fo s) (fb s) (fo_z s) (fb_z s) (inflight s)
                       (n_init s) (n_comp s) (n_canc s) (n_fb s) (now s) in
         (deliver_down c s1, [], None, RNone, [])
-      else (s, [], None, RNone, [])
-  | Up =>
-      if healthy s then (s, [], None, RNone, [])
       else
-        let s1 := mkS (role_ s) (st s) true (now s) (fo s) (fb s) (fo_z s) (fb_z s) (inflight s)
+        (mkS (role_ s) (st s) (healthy s) (h_cf s + 1) 0 (now s) (fo s) (fb s) (fo_z s) (fb_z s) (inflight s)
+             (n_init s) (n_comp s) (n_canc s) (n_fb s) (since s), [], None, RNone, [])
+  | Up =>
+      (* recordSuccess: ConsecutiveSuccesses++, ConsecutiveFailures = 0; partner_up only when the
+         partner was unhealthy and the success streak reached RecoveryThreshold *)
+      if goes_up c s then
+        let s1 := mkS (role_ s) (st s) true 0 (h_cs s + 1) (now s) (fo s) (fb s) (fo_z s) (fb_z s) (inflight s)
                       (n_init s) (n_comp s) (n_canc s) (n_fb s) (since s) in
         let '(s2, evs) := deliver_up c s1 in (s2, evs, None, RNone, [])
+      else
+        (mkS (role_ s) (st s) (healthy s) 0 (h_cs s + 1) (now s) (fo s) (fb s) (fo_z s) (fb_z s) (inflight s)
+             (n_init s) (n_comp s) (n_canc s) (n_fb s) (since s), [], None, RNone, [])
   | Advance d =>
-      (mkS (role_ s) (st s) (healthy s) (now s + d) (fo s) (fb s) (fo_z s) (fb_z s) (inflight s)
+      (mkS (role_ s) (st s) (healthy s) (h_cf s) (h_cs s) (now s + d) (fo s) (fb s) (fo_z s) (fb_z s) (inflight s)
            (n_init s) (n_comp s) (n_canc s) (n_fb s) (since s), [], None, RNone, [])
   | FireFO =>
       match fo s with
@@ -235,7 +267,7 @@ Definition step_core (c : config) (s : state) (e : ev)
          the delay timer) followed by executeFailover *)
       if role_eqb (role_ s) Active || fstate_eqb (st s) InProgress then (s, [], None, RForce false, [])
       else
-        let s1 := mkS (role_ s) InProgress (healthy s) (now s) None (fb s)
+        let s1 := mkS (role_ s) InProgress (healthy s) (h_cf s) (h_cs s) (now s) None (fb s)
                       (stop (now s) (fo s) (fo_z s)) (fb_z s) (inflight s)
                       (n_init s + 1) (n_comp s) (n_canc s) (n_fb s) (since s) in
         let '(s2, cb, mk) := fo_start false s1 in
@@ -254,7 +286,7 @@ Definition step_core (c : config) (s : state) (e : ev)
   end.
 
 Definition step (c : config) (s : state) (e : ev) : state * out * list N :=
-  let '(s1, evs, cb, r, mk) := step_core c s e in (s1, observe s1 evs cb r, mk).
+  let '(s1, evs, cb, r, mk) := step_core c s e in (s1, observe s1 evs (health_ev c s e) cb r, mk).
 
 Definition run (c : config) (s : state) (evs : list ev) : state :=
   fold_left (fun s e => fst (fst (step c s e))) evs s.
@@ -287,4 +319,5 @@ Definition out_eqb (a b : out) : bool :=
   role_eqb (o_role a) (o_role b) && fstate_eqb (o_st a) (o_st b) && stats_eqb (o_stats a) (o_stats b)
   && list_eqb fevent_eqb (o_evs a) (o_evs b) && Bool.eqb (o_fo a) (o_fo b) && Bool.eqb (o_fb a) (o_fb b)
   && (o_foz a =? o_foz b) && (o_fbz a =? o_fbz b) && Bool.eqb (o_healthy a) (o_healthy b)
+  && (fst (o_hc a) =? fst (o_hc b)) && (snd (o_hc a) =? snd (o_hc b)) && (o_hev a =? o_hev b)
   && orole_eqb (o_cb a) (o_cb b) && res_eqb (o_res a) (o_res b).
